@@ -208,9 +208,58 @@ CONSTRAINED = set(G.POSITIVE_SEP) | {"Box", "G+"}
 
 
 def plan_C04(seed, run, engine, full=False):
-    return _grid_plan("C04", seed, run, engine,
+    plan = _grid_plan("C04", seed, run, engine,
                       lambda e: any(v in CONSTRAINED for v in e[2]), None,
                       variant_pool=CONSTRAINED, full=full)
+    return _tightened_constraint_history(plan, seed, run)
+
+
+def _tightened_constraint_history(plan, seed, run):
+    """'... whatever the iteration budget, tolerance or warm start': a warm start that a
+    *history* makes infeasible - a solve under a looser constraint (a larger box, no positivity),
+    the constraint tightened the way set_params / path() / a user would (in place on the penalty
+    object or through a new one), then every stopping point of the grid restarted from the
+    surviving buffers.  Budgets that perform no iteration (max_iter = 0) return the caller's own
+    point and are left out.  (round 3 of DESIGN section 9)"""
+    rng = G.rng_for(seed, 1004, run)
+    fam = plan["family"]
+    pname, pargs = fam["penalty"], fam["pargs"]
+    grid = plan["ops"][-1]
+    if rng.random() >= 0.3 or pname == "PositiveConstraint" or fam["solver"] in ("LBFGS",):
+        return plan
+    k1 = dict(grid["knobs"])
+    k1["max_iter"] = int(choice(rng, [1, 3, 50]))
+    inner = B.INNER_BUDGET.get(fam["solver"])
+    if inner:
+        k1[inner] = int(choice(rng, [5, 50, 1000]))
+    if fam["solver"] in ("FISTA", "GramCD"):
+        k1["max_iter"] = int(choice(rng, [5, 50, 1000]))
+    if fam["datafit"] in ("Logistic", "LogisticGroup", "Poisson", "Gamma", "Cox"):
+        # on separable / unbounded likelihoods a long unconstrained solve at a small alpha runs
+        # off to coefficients whose loss overflows exp() once their negative part is projected
+        # away (Logistic.value is log(1 + exp(.)) evaluated directly): keep the first solve short
+        k1["max_iter"] = 1
+        if inner:
+            k1[inner] = int(choice(rng, [5, 20]))
+    how = choice(rng, ["inplace", "new"])
+    if pname == "IndicatorBox":
+        target = pargs["alpha"]
+        pargs["alpha"] = float(G.sig3(target * choice(rng, [3.0, 10.0, 100.0]), 6))
+        tighten = dict(alpha=target)
+    elif pargs.get("positive"):
+        pargs["positive"] = False
+        tighten = dict(positive=True)
+    else:
+        return plan
+    pre = dict(op="solve", start=grid.get("start", "cold"), w0=grid.get("w0"), knobs=k1, faults={},
+               storage=grid.get("storage", plan.get("storage")))
+    if pre["start"] == "cold":
+        pre["start"] = "cold_buf"
+    grid["start"], grid["w0"] = "buffers", None
+    grid["budgets"] = [b for b in grid["budgets"] if b[0] >= 1]
+    plan["ops"] = [pre, dict(op="set", params=tighten, how=how), grid]
+    plan["tightened"] = True
+    return plan
 
 
 def plan_C17(seed, run, engine, full=False):
